@@ -210,6 +210,11 @@ def formula(fn, env=None, inline=True, depth=0):
                 walk(succ[0], conds + [cnd], visited | {b})
             if succ[1] is not None:
                 walk(succ[1], conds + [('not', cnd)], visited | {b})
+        elif len(succ) == 2 and tc == 'CXXBindTemporaryExpr':
+            # conditional destruction of a temporary: both edges rejoin, neither constrains the result
+            for s_ in succ:
+                if s_ is not None:
+                    walk(s_, conds, visited | {b})
         elif len(succ) == 1:
             if succ[0] is not None:
                 walk(succ[0], conds, visited | {b})
